@@ -868,6 +868,48 @@ fn part_b_low(qs: &mut QStats, a: &Args) {
         for t in [act + 100, act + 489, act + 490, act + 498, act + 499, act + 500] {
             qstep(qs, &mut st, &qb::Op::Tip(t));
         }
+        // update_chain_tip with shard metadata present: new_tip = max_scanned + PRUNING_DEPTH + d for d in -11..=15
+        // (Verify range limited by the stable height for d < 10, by the lookahead for d >= 10; d = 0 is the
+        // documented zero-length Verify range), shard end below the birthday / between max scanned and the tip /
+        // above the tip; afterwards a low-level client loop must reach the tip
+        for (offset, roots_before, shard_at) in [(500u32, Some(10u32), None), (0, None, Some(60u32)), (0, None, Some(5)), (0, None, Some(400))] {
+            for loop_d in [-1i32, 0, 1, 15] {
+                let mut st = qb::build(offset, roots_before);
+                qs.histories += 1;
+                let b = act + offset;
+                qstep(qs, &mut st, &qb::Op::Tip(b + 20));
+                qstep(qs, &mut st, &qb::Op::Scan { s: b, e: b + 21, sap: vec![], orc: vec![], prime: true });
+                let ms = b + 20;
+                if let Some(rel) = shard_at {
+                    qb::put_roots(&mut st, 0, &[b + rel], 0, &[]);
+                }
+                let ds: Vec<i32> = if loop_d == -1 { (-11..=15).collect() } else { vec![loop_d] };
+                let mut tip = ms;
+                for d in ds {
+                    tip = (ms as i64 + 100 + d as i64) as u32;
+                    qstep(qs, &mut st, &qb::Op::Tip(tip));
+                }
+                // client loop on the queue (notify_scan_complete + blocks rows), whole suggested ranges
+                let mut scanned = 0u32;
+                for _ in 0..40 {
+                    let sg = qb::suggested(&st);
+                    if sg.is_empty() {
+                        break;
+                    }
+                    let (s0, e0) = (u32::from(sg[0].block_range().start), u32::from(sg[0].block_range().end));
+                    if qstep(qs, &mut st, &qb::Op::Scan { s: s0, e: e0, sap: vec![], orc: vec![], prime: true }) != "ok" {
+                        break;
+                    }
+                    scanned += e0 - s0;
+                }
+                case(format!(
+                    "QRescan {} {} {} {} {}",
+                    ms, tip, scanned,
+                    list(qb::queue(st.wallet().conn()).iter().map(|r| r.coq())),
+                    qb::suggest(&st)
+                ));
+            }
+        }
         // rewinds landing exactly on every boundary of the rows queued above the scanned region
         // (end-1, end, start-1, start, inside), each followed by a lower and a higher tip update
         {
